@@ -316,6 +316,27 @@ def aggregate_obs(timeout):
                          'COUNT/COUNTA do not propagate',
                   show=lambda e, pos, a, b: f'{ERR_CODES[e % 7]} in A{pos}, others {a},{b},7'))
 
+    M2 = mk({'A1': 1, 'A2': 2, 'A3': 3, 'B1': 1, 'Z1': '=SUM(A1:A3,B1)', 'Z2': '=SUM(B1,A1:A3)', 'Z3': '=MAX(A1:A2,B1,A3)', 'Z4': '=AVERAGE(A1:A3,5,B1)', 'Z5': '=CONCAT(A1:A3,B1)',
+             'Z6': '=MIN(A1,B1,A2:A3)'})
+
+    def h_two(e1: int, e2: int, pos: int, a: int) -> bool:
+        err1, err2 = err_by_index(e1), err_by_index(e2)
+        pos = concretize(pos, 1, 3)
+        for i in (1, 2, 3):
+            setv(M2, f'Sheet1!A{i}', err1 if i == pos else a)
+        setv(M2, 'Sheet1!B1', err2)
+        ev = Evaluator(M2)
+        # leftmost error in argument order (ranges read row-major): Z1 range first; Z2 direct first; Z3: A1:A2, B1, A3
+        exp3 = err1 if pos <= 2 else err2
+        exp6 = err1 if pos == 1 else err2
+        return (same_err(ev.evaluate('Sheet1!Z1'), err1) and same_err(ev.evaluate('Sheet1!Z2'), err2) and same_err(ev.evaluate('Sheet1!Z3'), exp3)
+                and same_err(ev.evaluate('Sheet1!Z4'), err1) and same_err(ev.evaluate('Sheet1!Z5'), err1) and same_err(ev.evaluate('Sheet1!Z6'), exp6))
+    obs.append(Ob('c07.aggregate[two errors: leftmost wins]', h_two, pre=lambda e1, e2, pos, a: 0 <= e1 <= 6 and 0 <= e2 <= 6 and 1 <= pos <= 3, witness=[(6, 1, 2, 4), (1, 6, 3, 0)],
+                  timeout=timeout, cost=60, family='c07.aggregate',
+                  bounds='SUM/MAX/AVERAGE/CONCAT/MIN with an error inside a range (code e1, each of 3 positions) and another error passed directly (code e2) before, between or after the range: '
+                         'the leftmost error in argument order is the result; 7 x 7 codes (forked)',
+                  show=lambda e1, e2, pos, a: f'{ERR_CODES[e1 % 7]} in A{pos}, {ERR_CODES[e2 % 7]} passed directly'))
+
     def h_sp(e: int, pos: int, a: int) -> bool:
         err = err_by_index(e)
         pos = concretize(pos, 1, 3)
